@@ -1,4 +1,7 @@
 """Property id -> machine module."""
 REGISTRY = {
+    "C04": "machines.knots",
+    "C06": "machines.knots",
+    "C12": "machines.cache",
     "C16": "machines.linalg",
 }
